@@ -59,6 +59,13 @@ fn bases() -> Result<Vec<Base>, String> {
         let b = w.build(t, ts, gt, txs, name)?;
         out.push(Base { name: name.to_string(), w, parent: t, block: b, foreign });
     }
+    // (2) the genesis block itself (id 1, issuance transactions): only an empty node can be offered it
+    {
+        let w = World::standard(10);
+        let k3 = key(3);
+        let foreign = make_tx(&[], &[(k3.public, 0)], &k3, 1_000_001, b"foreign");
+        out.push(Base { name: "genesis".to_string(), w, parent: usize::MAX, block: 0, foreign });
+    }
     Ok(out)
 }
 
@@ -83,6 +90,24 @@ pub fn variants(base: &Base) -> Vec<Variant> {
     let push = |label: String, class: &str, b: Block| {
         v.borrow_mut().push(Variant { label, class: class.to_string(), bytes: reser(&b) });
     };
+    // whole-list edits
+    {
+        let mut b = fresh();
+        b.transactions.clear();
+        push("remove-all-txs".into(), "remove-all-txs", b);
+        if n > 1 {
+            let mut b = fresh();
+            b.transactions.truncate(1);
+            push("keep-first-tx-only".into(), "remove-many-txs", b);
+            let mut b = fresh();
+            let last = b.transactions.pop().unwrap();
+            b.transactions = vec![last];
+            push("keep-last-tx-only".into(), "remove-many-txs", b);
+            let mut b = fresh();
+            b.transactions.reverse();
+            push("reverse-txs".into(), "reorder-txs", b);
+        }
+    }
     for i in 0..n {
         let mut b = fresh();
         b.transactions.remove(i);
@@ -248,7 +273,11 @@ pub fn variants(base: &Base) -> Vec<Variant> {
     }
     v.borrow_mut().push(Variant { label: "merkle-zero".into(), class: "header:merkle-zero".into(), bytes: x });
     let mut x = raw.clone();
-    x[85..117].copy_from_slice(&w.blocks[base.parent].bytes[85..117]);
+    if base.parent == usize::MAX {
+        x[85..117].copy_from_slice(&[0x5a; 32]);
+    } else {
+        x[85..117].copy_from_slice(&w.blocks[base.parent].bytes[85..117]);
+    }
     v.borrow_mut().push(Variant { label: "merkle-foreign".into(), class: "header:merkle-foreign".into(), bytes: x });
     let mut b = fresh();
     b.creator = key(3).public;
@@ -293,13 +322,17 @@ pub fn main(tier: Tier, _replay: Option<String>) -> i32 {
                 return None;
             };
             if blk.generate().is_err() {
-                return Some((blk.hash, false, false, vec![], true, "generate failed".to_string()));
+                return Some((blk.hash, false, false, vec![], true, "generate failed".to_string(), false));
             }
             let txlist: Vec<Vec<u8>> = blk.transactions.iter().map(|t| t.serialize_for_net()).collect();
             let sig_ok = verify_signature(&blk.pre_hash, &blk.signature, &blk.creator);
-            let mut n = match w.node_at(base.parent, key(9)) {
-                Ok(n) => n,
-                Err(e) => return Some((blk.hash, false, false, txlist, sig_ok, format!("node: {}", e))),
+            let mut n = if base.parent == usize::MAX {
+                LedgerNode::new(key(9), w.cfg.clone())
+            } else {
+                match w.node_at(base.parent, key(9)) {
+                    Ok(n) => n,
+                    Err(e) => return Some((blk.hash, false, false, txlist, sig_ok, format!("node: {}", e), false)),
+                }
             };
             // gate b: verification thread filter with the original's advertised id/hash
             let (mut vt, mut rx, _s) = super::c01::verifier(&n);
@@ -316,12 +349,21 @@ pub fn main(tier: Tier, _replay: Option<String>) -> i32 {
                 Outcome::Done(x) => (false, format!("{:?}", x)),
                 o => (false, o.label()),
             };
-            Some((blk.hash, acc, filt, txlist, sig_ok, note))
+            // gate c: the same bytes offered to a node with an empty chain (its first block)
+            let mut fresh = LedgerNode::new(key(9), w.cfg.clone());
+            let (acc_fresh, note_fresh) = match fresh.add_block_bytes(&v.bytes) {
+                Outcome::Done(AddRes::AddedLongest) => (true, String::new()),
+                Outcome::Done(x) => (false, format!("{:?}", x)),
+                o => (false, o.label()),
+            };
+            let note = if note_fresh.starts_with("panic") || note_fresh == "stalled" { format!("{} (as first block of an empty node)", note_fresh) } else { note };
+            Some((blk.hash, acc, filt, txlist, sig_ok, note, acc_fresh))
         });
         let mut groups: BTreeMap<Hash, Vec<(String, String, Vec<Vec<u8>>, bool)>> = BTreeMap::new();
+        let mut groups_fresh: BTreeMap<Hash, Vec<(String, String, Vec<Vec<u8>>, bool)>> = BTreeMap::new();
         for (v, r) in vs.iter().zip(results.into_iter()) {
             rep.evaluations += 1;
-            let Some((hash, acc, filt, txlist, sig_ok, note)) = r else {
+            let Some((hash, acc, filt, txlist, sig_ok, note, acc_fresh)) = r else {
                 rep.outcome("undecodable");
                 continue;
             };
@@ -333,6 +375,12 @@ pub fn main(tier: Tier, _replay: Option<String>) -> i32 {
             if v.class == "original" && !acc {
                 rep.machinery(format!("original block of {} not accepted: {}", base.name, note));
             }
+            if acc_fresh {
+                rep.outcome(if hash == orig_hash { "first-block-gate:accepted:same-hash" } else { "first-block-gate:accepted:different-hash" });
+                groups_fresh.entry(hash).or_default().push((v.label.clone(), v.class.clone(), txlist.clone(), filt));
+            } else {
+                rep.outcome("first-block-gate:rejected");
+            }
             if acc {
                 rep.outcome(if hash == orig_hash { "accepted:same-hash" } else { "accepted:different-hash" });
                 if hash == orig_hash {
@@ -341,7 +389,9 @@ pub fn main(tier: Tier, _replay: Option<String>) -> i32 {
                 if !sig_ok {
                     rep.violate(&format!("accepted-with-bad-creator-signature/{}", v.class), format!("{} {}", base.name, v.label), json!({"base": base.name, "variant": v.label, "bytes": hex::encode(&v.bytes)}));
                 }
-                groups.entry(hash).or_default().push((v.label.clone(), v.class.clone(), txlist, filt));
+                if base.parent != usize::MAX {
+                    groups.entry(hash).or_default().push((v.label.clone(), v.class.clone(), txlist, filt));
+                }
             } else {
                 if std::env::var("VERIF_C06_DEBUG").is_ok() {
                     eprintln!("rejected {} {} same_hash={} note={}", base.name, v.label, hash == orig_hash, note);
@@ -356,6 +406,19 @@ pub fn main(tier: Tier, _replay: Option<String>) -> i32 {
                     rep.violate(
                         &format!("same-hash-different-txs/{}", other.1),
                         format!("{}: variants '{}' and '{}' are both accepted under hash {} with different transaction lists (verify_block filter passed: {})", base.name, first.0, other.0, hx(h), other.3),
+                        json!({"base": base.name, "a": first.0, "b": other.0}),
+                    );
+                }
+            }
+        }
+        for (h, g) in groups_fresh.iter() {
+            let first = &g[0];
+            for other in g.iter().skip(1) {
+                if other.2 != first.2 {
+                    rep.violate_inst(
+                        &format!("same-hash-different-txs/first-block-of-an-empty-node/{}", other.1),
+                        &format!("{}|{}|{}", base.name, first.0, other.0),
+                        format!("{}: an empty node accepts '{}' and '{}' as its first block under hash {} with different transaction lists", base.name, first.0, other.0, hx(h)),
                         json!({"base": base.name, "a": first.0, "b": other.0}),
                     );
                 }
